@@ -58,7 +58,8 @@ def history(draw, max_steps=30):
     if draw(st.booleans()):
         feats = [draw(st.one_of(st.integers(0, 3).map(float), st.floats(0, 10, allow_nan=False),
                                 st.just(float("inf")))) for _ in range(nsteps)]
-        trunc = {"size": draw(st.one_of(st.integers(1, 3), st.integers(1, nsteps + 2))), "feats": feats, "larger": draw(st.booleans())}
+        trunc = {"size": draw(st.one_of(st.integers(1, 3), st.integers(1, nsteps + 2))), "feats": feats, "larger": draw(st.booleans()),
+                 "default_direction": draw(st.booleans())}
         if draw(st.booleans()):
             # step-wise pruning: the survivors are re-scored (as crowding distances are) and cut again by the same
             # feature, optionally after an offer that the archive rejects
@@ -100,7 +101,8 @@ def check_history(case):
     nt = False
     classes = set()
     for step, v in enumerate(vectors):
-        content = [tuple(o.costs_signed) for o in arch]
+        with guard("archive"):
+            content = [tuple(o.costs_signed) for o in arch]
         tv = tuple(v)
         evict = [i for i, c in enumerate(content) if O.verdict(tv, c) == 1]
         domby = [i for i, c in enumerate(content) if O.verdict(c, tv) == 1]
@@ -174,7 +176,10 @@ def check_history(case):
         for k, o in enumerate(prev):
             o.features["f"] = t["feats"][k % len(t["feats"])]
         with guard("truncate"):
-            arch.truncate(t["size"], "f", larger_preferred=t["larger"])
+            if t["larger"] and t.get("default_direction"):
+                arch.truncate(t["size"], "f")        # as the swarm algorithms call it: largest values are kept
+            else:
+                arch.truncate(t["size"], "f", larger_preferred=t["larger"])
             after = list(arch)
         if any(all(a is not p for p in prev) for a in after) or len(set(map(id, after))) != len(after):
             raise Violation("truncate", "truncate-foreign", "truncate produced members that were not in the archive")
